@@ -225,8 +225,9 @@ def judge(text, mode, obs):
         return 'bad', C.Fail(PROP, 'parse/%s · obs=%s' % (mode, K.bad_kind(obs)), 'parse', inp, obs, 'no panic')
     if ref is None:
         return ('py-reject/rs-reject' if 'err' in obs else 'py-reject/rs-accept'), None
-    if 'err' in obs and K.err_kind(obs) == 'Lexical(TabsAfterSpaces)':
-        return 'excluded: tab after space in indentation', None  # the property statement exempts this deliberate strictness
+    if 'err' in obs and K.err_kind(obs) in ('Lexical(TabsAfterSpaces)', 'Lexical(DuplicateKeywordArgumentError)', 'Lexical(DuplicateArgumentError)'):
+        # the property statement exempts the three things this parser rejects earlier or more strictly than the reference parser
+        return 'excluded: ' + K.err_kind(obs), None
     if 'err' in obs:
         return 'over-reject', C.Fail(PROP, 'parse/%s · ref=ok · obs=err(%s)' % (mode, K.err_kind(obs)), 'parse', inp,
                                      {'err': K.err_kind(obs), 'off': obs.get('off')}, 'accepted by CPython')
@@ -256,6 +257,15 @@ def lex_texts(kind, n, shard):
     if kind == 'lex':
         for text, l in X.shard_strings(LEX, n, shard):
             yield text, 'lexemes n=%d' % l
+    elif kind == 'dense':
+        from .. import relcheck
+        for i, (t, tag) in enumerate(relcheck.dense_family_texts(40 if n == 0 else 100)):
+            if i % 16 == shard:
+                yield t + '\n', tag
+    elif kind == 'fstr':
+        for i, t in enumerate(sorted(set(K.fstring_product(2 if n == 0 else 3)))):
+            if i % 16 == shard:
+                yield t, 'f-string concatenation product'
     elif kind == 'literals':
         # the literal corpus of C06 (quote runs and escapes in triple-quoted literals, prefixes, newline forms, concatenations): each is a valid
         # expression statement whose whole tree is compared here
@@ -310,7 +320,7 @@ def run_lex_shard(args):
 
 
 def run_shard(args):
-    if args[0] in ('lex', 'hdr', 'layout', 'literals'):
+    if args[0] in ('lex', 'hdr', 'layout', 'literals', 'fstr', 'dense'):
         return run_lex_shard(args)
     paths, d, tier, start = args
     r = C.Result()
@@ -370,6 +380,8 @@ def run(tier, seed):
     jobs += [('lex', LEX_N[tier], sh) for sh in X.prefix_shards(LEX, LEX_N[tier], 1 if tier == 'quick' else 2)]
     jobs += [('hdr', HDR_N[tier], sh) for sh in X.prefix_shards(HDR, HDR_N[tier], 2)]
     jobs += [('literals', 0 if tier == 'quick' else 1, k) for k in range(16)]
+    jobs += [('fstr', 0 if tier == 'quick' else 1, k) for k in range(16)]
+    jobs += [('dense', 0 if tier == 'quick' else 1, k) for k in range(16)]
     from .. import relcheck
     jobs += [('layout', LAYOUT_N[tier], sh) for sh in X.prefix_shards(relcheck.LAYOUT_LEX, LAYOUT_N[tier], 1)]
     reduced = set()
